@@ -3,6 +3,7 @@
 package s3db
 
 import (
+	"github.com/jrhy/mast"
 	"github.com/jrhy/s3db/kv"
 	"google.golang.org/protobuf/proto"
 )
@@ -22,4 +23,15 @@ func verifS3(opts *S3Options) (kv.S3Interface, bool) {
 // bytes (and therefore content-derived object names) replay exactly.
 func verifMarshal(m proto.Message) ([]byte, error) {
 	return proto.MarshalOptions{Deterministic: true}.Marshal(m)
+}
+
+// VerifNodeCache, when set by the simulator, may wrap a table's node cache
+// to observe what is added to it and what it serves.
+var VerifNodeCache func(mast.NodeCache) mast.NodeCache
+
+func verifNodeCache(c mast.NodeCache) mast.NodeCache {
+	if VerifNodeCache == nil {
+		return c
+	}
+	return VerifNodeCache(c)
 }
